@@ -282,7 +282,8 @@ def directed(pid, tier="quick"):
         S += [depth_bound_tips("regtest", 2), depth_bound_tips("testnet", 144, 90, 14)]
     if pid == "C03" and tier == "thorough":
         # several hundred blocks each: the real adaptive depth bound and the three-way tie
-        S += [depth_bound_chain("testnet", 144, 0), depth_bound_chain("regtest", 6, 30), tie_depth_escape("testnet")]
+        S += [depth_bound_chain("testnet", 144, 0), depth_bound_chain("regtest", 6, 30), tie_depth_escape("testnet"),
+              two_long_forks_heavy_block("regtest"), two_long_forks_heavy_block("testnet", 2, 302, 301)]
     return S
 
 
@@ -642,6 +643,19 @@ def depth_bound_tips(net="regtest", thr=2, chain_len=110, tips=10):
     sc = w.scenario(f"depth-bound-tips-{net}-{thr}", {"thr": thr, "seed": 33, "book": False}, cmds)
     sc["blocks"].insert(0, {"id": 1, "parent": 0, "diff": 1000000, "time": 0, "txs": [1]})
     return sc
+
+
+def two_long_forks_heavy_block(net="regtest", thr=144, la=350, lb=349):
+    """Two forks of the anchor, both longer than the adaptive depth bound and less than the bound apart: the
+    depth escape does not apply, and when one heavy block lands on one of them the DIFFICULTY rule must still
+    advance the anchor (the two rules are a disjunction)."""
+    w = World(random.Random(34), net=net, naddr=1, prefix_pair=False)
+    a = _plain_chain(w, 1, la, 1)
+    b = _plain_chain(w, 1, lb, 1)
+    heavy = w.mine(a[-1], ntx=0, coinbase_out=cb(1, 1), diff=5000, time=w.blocks[a[-1]]["time"] + 600)
+    cmds = [{"c": "tick", "dt": 1000000}, {"c": "bulk_push", "bs": a + b}, {"c": "ingest"}, q("info"),
+            {"c": "push", "b": heavy}, q("info"), {"c": "ingest"}, q("info"), q("headers", s=0, e=3), q("headers", s=la - 5, e=-1)]
+    return w.scenario(f"two-long-forks-{net}", {"thr": thr, "seed": 34, "book": False}, cmds)
 
 
 def tie_depth_escape(net="testnet", la=302, lc=301):
